@@ -183,6 +183,7 @@ Theorem xsearch_tok_sound : forall w fuel sl t s a b, tok_wfb t = true ->
   exists v rest, skipn a s = v ++ rest /\ b = (a + length v)%nat /\ Lre (re_of_tok_d (xp_dot (fx_dot w) sl) t) v.
 Proof.
   intros w fuel sl t s a b Hwf H. unfold xsearch_tok in H.
+  destruct (Nat.ltb (units_of s) (minlen_u t)); [discriminate |].
   destruct (compile w true t HNull 0) as [o nclos] eqn:Ec.
   assert (G : forall n start, (fix go (n : nat) (start : nat) : sres :=
      match omatch w true sl s fuel o (fun o' st' => MR (Some o') st') start (repeat None nclos) with
